@@ -71,7 +71,7 @@ def gen_case(tier, seed, k):
         L += [rnd.choice(["opt_primal p0", "opt_dual p0"]), "get_basis_array p0", "write_basis p0 - " + f1, "get_basis_array p0",
               "read_basis p0 " + f1 + " b1"]
         for _ in range(rnd.randint(1, 3)):
-            L.append(rnd.choice(["opt_dual p0", "opt_primal p0", "tableau p0", "write_basis p0 - @W@/b2.bas", "get_basis p0 b3", "dumpsol p0"]))
+            L.append(rnd.choice(["opt_dual p0", "opt_primal p0", "tableau p0", "write_basis p0 - @W@/b2.bas", "get_basis p0 b3", "dumpsol p0", "roundtrip_basis_norms p0"]))
         L += ["get_basis_array p0", "write_basis p0 - @W@/b3.bas", "read_basis p0 @W@/b3.bas b4"]
     return run.Case("C14-%d" % k, L, dict(mode=mode)), m
 
